@@ -14,9 +14,12 @@ import (
 	"go/parser"
 	"go/token"
 	"go/types"
+	"io/fs"
+	"path"
 	"reflect"
 	"sort"
 	"strings"
+	"testing/fstest"
 	"time"
 
 	"golang.org/x/tools/go/packages"
@@ -51,18 +54,22 @@ func loadSynth() (*packages.Package, error) {
 
 // synthOpts: target options of the functions of the corpus that need some.
 var synthOpts = map[string]Target{
-	"fill":          {NonNil: true},
-	"listPages":     {Oracle: true, Callback: "fn"},
-	"newRec":        {Oracle: true, FreshResults: true},
-	"LocalIdentity": {LocalErrorIdentity: []string{"errLimit", "errHalt"}},
-	"decode":        {Oracle: true, OutParams: []string{"v"}},
-	"fillFrom":      {NonNil: true, InstantiateAny: []string{"out"}},
-	"record":        {NonNil: true},
-	"stepFailed":    {NonNil: true},
-	"counterOf":     {NonNil: true},
-	"parseBlob":     {Oracle: true, OutParams: []string{"v"}},
-	"emit":          {Oracle: true, Effect: true},
-	"tryEmit":       {Oracle: true, Effect: true},
+	"fill":                 {NonNil: true},
+	"listPages":            {Oracle: true, Callback: "fn"},
+	"newRec":               {Oracle: true, FreshResults: true},
+	"LocalIdentity":        {LocalErrorIdentity: []string{"errLimit", "errHalt"}},
+	"decode":               {Oracle: true, OutParams: []string{"v"}},
+	"fillFrom":             {NonNil: true, InstantiateAny: []string{"out"}},
+	"record":               {NonNil: true},
+	"stepFailed":           {NonNil: true},
+	"counterOf":            {NonNil: true},
+	"parseBlob":            {Oracle: true, OutParams: []string{"v"}},
+	"genAnn":               {NilIsEmpty: true},
+	"pushIt":               {Oracle: true},
+	"(*RefError).IsDelete": {Oracle: true},
+	"WalkList":             {DropParams: []string{"fsys"}},
+	"emit":                 {Oracle: true, Effect: true},
+	"tryEmit":              {Oracle: true, Effect: true},
 }
 
 // synthOracles: the Coq terms of the oracles a corpus function depends on (in
@@ -88,6 +95,25 @@ var synthOracles = map[string]func(g *gen, args []reflect.Value) []string{
   else if str_has_prefix "empty" d then (mk_Blob d (Some []) (Some []), None)
   else (mk_Blob d (Some [1; 2]) (Some [("k", d)]), None))`}
 	},
+	"AsTarget": func(g *gen, args []reflect.Value) []string {
+		return []string{`(fun (e : err) => match e with Err _ f _ => String.eqb f "delete" end)`,
+			`(fun (op : string) => if String.eqb op "" then None
+  else if str_has_prefix "w:" op then Some (Err "fmt" "push: %w" [Err "*synth.RefError" (match str_slice op 2 (str_len op) with Some t => t | None => "" end) []])
+  else if str_has_prefix "a" op then Some (Err "errors" op [])
+  else Some (Err "*synth.RefError" op []))`}
+	},
+	"WalkList": func(g *gen, args []reflect.Value) []string {
+		fsys := args[0].Interface().(fs.FS)
+		root := args[1].String()
+		if len(root)%4 != 1 {
+			root = "."
+		} else if len(root) == 1 {
+			root = "lockedx"
+		}
+		// an entry is (name, is a directory)
+		return []string{"(string * bool)%type", "(fun (e : string * bool) => fst e)", "(fun (e : string * bool) => snd e)",
+			"(fun (_ : string) => " + walkTop(fsys, root) + ")"}
+	},
 	"Effects":    eventOracles,
 	"EffectTail": eventOracles,
 	"UsePages":   pagesOracle,
@@ -100,9 +126,35 @@ var synthOracles = map[string]func(g *gen, args []reflect.Value) []string{
 }
 
 // synthHelpers: exported functions of the corpus that are tested through their callers only.
-var synthHelpers = map[string]bool{"OpenHandle": true, "NewRec": true, "NewStrSet": true, "PagesOf": true}
+var synthHelpers = map[string]bool{"AddMeta": true, "OpenHandle": true, "NewRec": true, "NewStrSet": true, "PagesOf": true}
 
 const storeLoad = `(fun (p k : string) => if String.eqb k "" then ("", Some (Err "errors" "empty key" [])) else (String.append p (String.append ":" k), None))`
+
+// walkTop prints what fs.WalkDir(fsys, root, ..) sees as a GoLib walk_tree (or the error of the root's Stat).
+func walkTop(fsys fs.FS, root string) string {
+	info, err := fs.Stat(fsys, root)
+	if err != nil {
+		return "(inr (Err \"errors\" " + CStr(err.Error()) + " []) : (walk_tree (string * bool)) + err)"
+	}
+	return "(inl " + walkNode(fsys, root, fs.FileInfoToDirEntry(info)) + " : (walk_tree (string * bool)) + err)"
+}
+
+func walkNode(fsys fs.FS, name string, d fs.DirEntry) string {
+	ent := "(" + CStr(d.Name()) + ", " + CBool(d.IsDir()) + ")"
+	if !d.IsDir() {
+		return "(WNode " + CStr(name) + " " + ent + " false None [])"
+	}
+	es, rerr := fs.ReadDir(fsys, name)
+	var kids []string
+	for _, e := range es {
+		kids = append(kids, walkNode(fsys, path.Join(name, e.Name()), e))
+	}
+	re := "None"
+	if rerr != nil {
+		re = "(Some (Err \"errors\" " + CStr(rerr.Error()) + " []))"
+	}
+	return "(WNode " + CStr(name) + " " + ent + " true " + re + " " + CList(kids) + ")"
+}
 
 // eventOracles: the world of the corpus is the event log (a list of strings).
 func eventOracles(g *gen, args []reflect.Value) []string {
@@ -143,7 +195,15 @@ func synthGen() (*gen, error) {
 	}
 	L := &loader{repo: "/", pkgs: map[string]*packages.Package{synthPath: p}, funcs: map[string]*funcDecl{}, vars: map[string]*varDecl{},
 		mutated: map[string]bool{}, scanned: map[string]bool{}}
-	table := []Target{{Pkg: synthPath, Type: "Finder", Nilable: true}, {Pkg: synthPath, Type: "Handle", Nilable: true, Concrete: synthPath + ".FileHandle"}, {Pkg: synthPath, Type: "Blob", NilableFields: []string{"Delta", "Meta"}},
+	L.knownSentinels = map[string]string{"io/fs.SkipDir": fs.SkipDir.Error(), "io/fs.SkipAll": fs.SkipAll.Error()}
+	for _, imp := range p.Types.Imports() {
+		// the packages the corpus imports: their types are enough for oracle rows on their functions
+		L.pkgs[imp.Path()] = &packages.Package{ID: imp.Path(), PkgPath: imp.Path(), Name: imp.Name(), Types: imp}
+	}
+	table := []Target{{Pkg: "io/fs", Type: "DirEntry", Opaque: true, Nilable: true},
+		{Pkg: "io/fs", Func: "DirEntry.Name", Oracle: true}, {Pkg: "io/fs", Func: "DirEntry.IsDir", Oracle: true},
+		{Pkg: "io/fs", Func: "WalkDir", Oracle: true, Walk: "fn", DropParams: []string{"fsys"}},
+		{Pkg: synthPath, Type: "Finder", Nilable: true}, {Pkg: synthPath, Type: "Handle", Nilable: true, Concrete: synthPath + ".FileHandle"}, {Pkg: synthPath, Type: "Blob", NilableFields: []string{"Delta", "Meta"}},
 		{Pkg: synthPath, Type: "Store", Opaque: true}, {Pkg: synthPath, Func: "Store.Load", Oracle: true}}
 	for _, d := range p.Syntax[0].Decls {
 		fd, ok := d.(*ast.FuncDecl)
@@ -557,6 +617,16 @@ func synthArg(t reflect.Type, r *Rng) reflect.Value {
 			m[Pick(r, synthStrings)] = Pick(r, synthStrings)
 		}
 		return reflect.ValueOf(m)
+	}
+	if t.Kind() == reflect.Interface && t.String() == "fs.FS" {
+		files := []string{"a/one", "a/skipme/in", "a/two", "b/skipfile", "b/zed", "c/stop", "d/after", "lockedx/p", "lockedx/q", "lockedy/r", "lockedy/s", "e/bad", "f/last", "skipdir/hidden", "top"}
+		m := fstest.MapFS{}
+		for _, f := range files {
+			if r.Intn(3) > 0 {
+				m[f] = &fstest.MapFile{Data: []byte("x")}
+			}
+		}
+		return reflect.ValueOf(synth.WalkFS{M: m})
 	}
 	if t.Kind() == reflect.Interface && t.Name() == "Store" {
 		return reflect.ValueOf(synth.MemStore{Prefix: Pick(r, synthStrings)})
